@@ -1382,9 +1382,12 @@ def _reflect_uris():
         raise TranslateError("IS_WIN is not False: PyMini gives a meaning to the POSIX branch only")
     if u.re is not re or u.RE_DRIVE_LETTER_PATH.pattern != DRIVE_RE or u.RE_DRIVE_LETTER_PATH.flags != re.compile("x").flags:
         raise TranslateError("RE_DRIVE_LETTER_PATH is not the pattern PyMini models")
+    if u.parse is not importlib.import_module("urllib.parse"):
+        raise TranslateError("pygls.uris.parse is not urllib.parse")
 
 
-URIS_FUNCTIONS = [(None, "_normalize_win_path"), (None, "to_fs_path"), (None, "uri_scheme")]
+URIS_FUNCTIONS = [(None, "_normalize_win_path"), (None, "to_fs_path"), (None, "uri_scheme"),
+                  (None, "from_fs_path"), (None, "urlunparse"), (None, "uri_with")]
 
 
 def _uris_helper_name():
@@ -1412,7 +1415,9 @@ def gen_uris():
             {"IS_WIN": _is_from("pygls", "IS_WIN"),
              "RE_DRIVE_LETTER_PATH": _is_drive_re,
              # pygls.uris.urlparse wraps urllib: not translated, an oracle of the equivalence theorems
-             "urlparse": lambda b: b == ("def",)},
+             "urlparse": lambda b: b == ("def",),
+             # urllib.parse (quote, urlunparse): oracles of the equivalence theorems as well
+             "parse": _is_from("urllib", "parse")},
             "AstUris.v", _reflect_uris,
             source_names={(None, "_normalize_win_path"): alias} if alias else None)
     except Exception as e:
